@@ -9,15 +9,16 @@
 //
 // Parts (all exhaustive within the stated bounds, no sampling):
 //
-//	P1 roundtrip.go  explicit-state BFS over (encoder state, decoder state): transitions = (table-size
+//	P1 roundtrip_test.go  explicit-state BFS over (encoder state, decoder state): transitions = (table-size
 //	                 change schedule, header block); every transition: encoder output decoded by the real
 //	                 decoder AND by the reference, fields/sensitivity equal, encoder table == decoder table
 //	                 == reference table, size bounds, fragment closure of the block.
-//	P2 decoder.go    the real decoder against the reference on every byte string up to a length over all
-//	                 256 octets and over a 16-octet alphabet, after each of 3 table prefixes, plus
+//	P2 decoder_test.go    the real decoder against the reference on every byte string up to a length over all
+//	                 256 octets and over a 16/14-octet alphabet, after each of 3 table prefixes (P2c: integer encodings
+//	                 against a 2^32-1 limit, overflow guard), plus
 //	                 fragment independence over EVERY cut set.
-//	P4 huffman.go    Huffman decoder on every short octet string, encoder on every short symbol string.
-//	P5 decoder.go    the same decoder enumeration with SetMaxStringLength (implementation limit of RFC 7541 s5.1).
+//	P4 huffman_test.go    Huffman decoder on every short octet string, encoder on every short symbol string.
+//	P5 decoder_test.go    the same decoder enumeration with SetMaxStringLength (implementation limit of RFC 7541 s5.1).
 package c18
 
 import (
@@ -157,8 +158,8 @@ type obs struct {
 	allowed uint32
 	// "never lets the dynamic table grow beyond the size permitted at that moment":
 	// checked at every emit callback and at the end
-	overMax   string // human text, "" = never
-	overClass string // "size>maxSize@emit" | "size>maxSize@end" | "size-accounting"
+	overMax   string         // human text, "" = never
+	overClass string         // "size>maxSize@emit" | "size>maxSize@end" | "size-accounting"
 	dec       *hpack.Decoder // the decoder after the block
 }
 
@@ -460,8 +461,8 @@ func TestCheck(t *testing.T) {
 		rep.SetMax("max_shard_ms_"+name, time.Since(t0).Milliseconds())
 	}
 	timed("P4_huffman", "4", func() { partHuffman(h) })
-	timed("P2_P5_decoder_small_spaces", "2", func() { partDecoder(h, "early") })
+	timed("P2a_P2c_decoder", "2", func() { partDecoder(h, "early") })
 	timed("P1_roundtrip_bfs", "1", func() { partRoundTrip(h) })
-	timed("P2b_decoder_alpha16", "2", func() { partDecoder(h, "late") })
+	timed("P2b_P5_decoder", "2", func() { partDecoder(h, "late") })
 	rep.Add("wall_ms_shard", time.Since(h.start).Milliseconds())
 }
